@@ -271,3 +271,200 @@ func asmDivCore(t *asmText) (bad string, applicable bool) {
 	}
 	return walk(0), true
 }
+
+// ASM counter/…: index and count stay in step. The vector kernels walk their operands with an
+// index register that goes up and a count register that goes down by the same constants (4 per
+// unrolled round, 1 per tail round); a shared tail (the memcpy of the words above an absorbed
+// carry, the scalar tail loop) computes what is left from the pair. For every pair of registers
+// that the routine only ever sets afresh or changes by constants, the sum of the two — as an
+// offset from its value at the last fresh set — is propagated forward; a label that is reached
+// from two places with the same fresh set behind them but different offsets is entered with an
+// index that is ahead of, or behind, the count: words are skipped or copied twice.
+func asmCounterRule(t *asmText) (bad []string, npairs int) {
+	succs := asmSuccs(t)
+	n := len(t.instrs)
+	// effect of instruction i on register r: 0 none, 1 change by constant (delta), 2 fresh set
+	effect := func(i int, r string) (int, int64) {
+		in := t.instrs[i]
+		if in.label != "" {
+			return 0, 0
+		}
+		writes := false
+		for _, w := range asmEffect(in).writes {
+			if w == r {
+				writes = true
+			}
+		}
+		if !writes {
+			return 0, 0
+		}
+		imm := func(a string) (int64, bool) {
+			if !strings.HasPrefix(a, "$") {
+				return 0, false
+			}
+			k, err := strconv.ParseInt(strings.TrimPrefix(a, "$"), 0, 64)
+			return k, err == nil
+		}
+		switch in.op {
+		case "ADDQ", "SUBQ":
+			if len(in.args) == 2 && in.args[1] == r {
+				if k, ok := imm(in.args[0]); ok {
+					if in.op == "SUBQ" {
+						k = -k
+					}
+					return 1, k
+				}
+			}
+		case "INCQ":
+			return 1, 1
+		case "DECQ":
+			return 1, -1
+		case "LEAQ":
+			if len(in.args) == 2 && in.args[1] == r && strings.HasSuffix(in.args[0], "("+r+")") {
+				ks := strings.TrimSuffix(in.args[0], "("+r+")")
+				if ks == "" {
+					return 1, 0
+				}
+				if k, err := strconv.ParseInt(ks, 0, 64); err == nil {
+					return 1, k
+				}
+			}
+		}
+		return 2, 0
+	}
+	// candidate registers: changed by a constant somewhere
+	var cands []string
+	for r := range asmRegs {
+		has := false
+		for i := 0; i < n; i++ {
+			if k, _ := effect(i, r); k == 1 {
+				has = true
+			}
+		}
+		if has {
+			cands = append(cands, r)
+		}
+	}
+	sort.Strings(cands)
+	type st struct {
+		reached bool
+		mixed   bool
+		epoch   int
+		off     int64
+		from    int // line of the instruction the state came through
+	}
+	for ai := 0; ai < len(cands); ai++ {
+		for bi := ai + 1; bi < len(cands); bi++ {
+			a, b := cands[ai], cands[bi]
+			// coupled: within one run of instructions without a label the one goes up and the other
+			// down by the same constant (i += 4 … n -= 4); otherwise their sum is not an invariant
+			// anybody relies on (a counter compared against a fixed limit)
+			coupled := false
+			for i := 0; i < n && !coupled; i++ {
+				for _, pr := range [][2]string{{a, b}, {b, a}} {
+					k1, d1 := effect(i, pr[0])
+					if k1 != 1 || d1 == 0 {
+						continue
+					}
+					for j := i + 1; j < n && t.instrs[j].label == ""; j++ {
+						if k2, d2 := effect(j, pr[1]); k2 == 1 && d2 == -d1 {
+							coupled = true
+						}
+						if k2, _ := effect(j, pr[0]); k2 != 0 {
+							break
+						}
+					}
+				}
+			}
+			if !coupled {
+				continue
+			}
+			npairs++
+			in := make([]st, n+1)
+			in[0] = st{reached: true, epoch: -1}
+			work := []int{0}
+			reported := map[int]bool{}
+			for len(work) > 0 {
+				i := work[len(work)-1]
+				work = work[:len(work)-1]
+				if i >= n {
+					continue
+				}
+				cur := in[i]
+				out := cur
+				out.from = t.instrs[i].line
+				for _, r := range []string{a, b} {
+					switch k, d := effect(i, r); k {
+					case 1:
+						out.off += d
+					case 2:
+						out.epoch, out.off, out.mixed = i, 0, false
+					}
+				}
+				for _, j := range succs(i) {
+					if j > n {
+						continue
+					}
+					old := in[j]
+					switch {
+					case !old.reached:
+						in[j] = out
+						in[j].reached = true
+						work = append(work, j)
+					case old.mixed:
+					case out.mixed || old.epoch != out.epoch:
+						in[j].mixed = true
+						work = append(work, j)
+					case old.off != out.off:
+						if !reported[j] && j < n && pairLive(t, succs, j, a, b, effect) {
+							reported[j] = true
+							lab := t.instrs[j].label
+							if lab == "" {
+								lab = fmt.Sprintf("line %d", t.instrs[j].line)
+							}
+							bad = append(bad, fmt.Sprintf("dec_arith_amd64.s:%d: %s is reached with %s+%s off by %d between the way through line %d and the way through line %d: the index and the count it computes the rest from are out of step", t.instrs[j].line, lab, a, b, out.off-old.off, old.from, out.from))
+						}
+						in[j].mixed = true
+						work = append(work, j)
+					}
+				}
+			}
+		}
+	}
+	sort.Strings(bad)
+	return bad, npairs
+}
+
+// pairLive: from instruction j on, some path reads register a or b (as a value or in an address)
+// before setting it afresh.
+func pairLive(t *asmText, succs func(int) []int, j int, a, b string, effect func(int, string) (int, int64)) bool {
+	for _, r := range []string{a, b} {
+		seen := map[int]bool{}
+		work := []int{j}
+		for len(work) > 0 {
+			i := work[len(work)-1]
+			work = work[:len(work)-1]
+			if i >= len(t.instrs) || seen[i] {
+				continue
+			}
+			seen[i] = true
+			in := t.instrs[i]
+			if in.label == "" {
+				// a jump into another routine hands over the registers as they are
+				if (in.op == "JMP" || in.op == "CALL") && len(in.args) == 1 && strings.HasSuffix(in.args[0], "(SB)") {
+					return true
+				}
+				for _, rd := range asmEffect(in).reads {
+					if rd == r {
+						return true
+					}
+				}
+				if k, _ := effect(i, r); k == 2 {
+					continue
+				}
+			}
+			work = append(work, succs(i)...)
+		}
+	}
+	return false
+}
